@@ -40,6 +40,7 @@ class Disk:
         self.files = {}      # path -> bytearray (live content)
         self.versions = {}   # path -> number of atomic replacements so far
         self.policy = Policy()
+        self.real_hook = None  # (path prefix, wrap(fileobj, path, mode)) for REAL files, e.g. timestamping at close
 
     def put(self, path, data: bytes):
         """Atomic (rename-style) replacement: readers that already opened keep their version."""
@@ -165,7 +166,11 @@ def sim_open(file, mode='r', buffering=-1, encoding=None, errors=None, newline=N
         except Exception:
             path = None
     if path is None or not path.startswith(PREFIX):
-        return _real_open(file, mode, buffering, encoding, errors, newline, closefd, opener)
+        f = _real_open(file, mode, buffering, encoding, errors, newline, closefd, opener)
+        hook = DISK.real_hook
+        if hook is not None and path is not None and path.startswith(hook[0]):
+            return hook[1](f, path, mode)
+        return f
     flags = _parse_mode(mode)
     disk = DISK
     disk.policy.on_open(path, flags)
@@ -216,4 +221,41 @@ def reset(policy=None):
     DISK.files.clear()
     DISK.versions.clear()
     DISK.policy = policy or Policy()
+    DISK.real_hook = None
     return DISK
+
+
+class StampOnClose:
+    """Proxy around a real file object: when a file opened for writing is closed, play the file
+    system's timestamping under the SIMULATED clock (os.utime with the given granularity)."""
+
+    def __init__(self, f, path, mode, stamp):
+        object.__setattr__(self, '_f', f)
+        object.__setattr__(self, '_path', path)
+        object.__setattr__(self, '_writing', any(c in mode for c in 'wax+'))
+        object.__setattr__(self, '_stamp', stamp)
+
+    def __getattr__(self, name):
+        return getattr(self._f, name)
+
+    def __setattr__(self, name, value):
+        setattr(self._f, name, value)
+
+    def __iter__(self):
+        return iter(self._f)
+
+    def __enter__(self):
+        self._f.__enter__()
+        return self
+
+    def __exit__(self, *exc):
+        self.close()
+        return False
+
+    def close(self):
+        was_open = not self._f.closed
+        try:
+            self._f.close()
+        finally:
+            if was_open and self._writing:
+                self._stamp(self._path)
